@@ -82,12 +82,12 @@ def family(tier):
     fam.append(pair("layers", ["a", "b"], R1,
                     {"layers": [("l0", ["a", "(layer-switch l1)"]), ("l1", ["x", "(layer-switch l0)"])]},
                     {"layers": [("n0", ["1", "(layer-while-held n1)"]), ("n1", ["2", "_"])]},
-                    kinds=["N", "S", "missing", "X"] if q else ALL_KINDS, maxatt=2, pre=4 if q else 6, post=3 if q else 4))
+                    kinds=["N", "S", "missing", "X"] if q else ALL_KINDS, maxatt=1 if q else 2, pre=4 if q else 6, post=3 if q else 4))
     # pending tap-hold, active one-shot at the request point
     fam.append(pair("thos", ["a", "b"], R1,
                     {"layers": [("l0", ["(tap-hold 0 3 x lsft)", "(one-shot 4 lctl)"])], "defcfg": "rapid-event-delay 1"},
                     {"layers": [("n0", ["(one-shot 3 lalt)", "(tap-hold 0 2 2 rsft)"])], "defcfg": "rapid-event-delay 1"},
-                    kinds=["N", "R", "O"] if q else ALL_KINDS, pre=4 if q else 6, post=3 if q else 4))
+                    kinds=["N", "R", "O"] if q else ALL_KINDS, pre=4 if q else 6, post=2 if q else 4))
     # running macro at the request point (no output key is down between its taps)
     fam.append(pair("macro", ["a", "b"], R1,
                     {"layers": [("l0", ["(macro y 2 z)", "lsft"])]},
@@ -108,9 +108,17 @@ def family(tier):
                     maxatt=2 if q else 3, pre=2 if q else 3, post=2 if q else 3, env=[],
                     env_reqs=["r", "n", "p"] if q else None))
     if not q:
-        fam.append(pair("unmod", ["a", "b"], R1,
-                        {"layers": [("l0", ["(unmod x)", "lsft"])]}, {"layers": [("n0", ["1", "2"])]},
-                        kinds=["N", "S"]))
+        # the one-second fallback: an unmod key is no NormalKey, so with it held kanata counts idle ticks and the reload
+        # is applied with an output key down.  ticks_since_idle needs its real range here (cap 1002); the environment
+        # does not interrupt the idle second in the middle
+        u = pair("unmod", ["a", "b"], R1,
+                 {"layers": [("l0", ["(unmod x)", "b"])]}, {"layers": [("n0", ["1", "2"])]},
+                 kinds=["N", "S"], pre=3, post=2, settle=40)
+        u["age"] = 1002
+        u["label"] = "scenario unmod"     # the same defect as the scripted scenario (known finding)
+        u["mc_scap"] = 1001
+        u["extra_guard"] = "/\\ ~(SA.K.lrr /\\ SA.K.tsi > 2 /\\ SA.K.tsi < 999)"
+        fam.append(u)
     return fam
 
 
@@ -152,7 +160,7 @@ Init == /\ SA = InitS /\ SB = InitS /\ SC = 0 /\ lane = [b |-> TRUE, c |-> "off"
 Alive == SA.K.L.panic = "" /\ mon.err = ""
 \* the environment: at most QMax queued events, PreBudget input events before the first reload attempt and
 \* PostBudget after the latest one (the continuation)
-CanInput == Alive /\ Len(SA.K.L.queue) < QMax /\ budget > 0
+CanInput == Alive /\ Len(SA.K.L.queue) < QMax /\ budget > 0 %(extra_guard)s
 InRec(S) == [on |-> TRUE, out |-> S.K.out]
 Input(kind, c) ==
   /\ SA' = InputS(SA, kind, c)
@@ -189,6 +197,8 @@ TickWith(f, att, aidx) ==
      /\ obs' = [out |-> ra.out, idle |-> ra.idle, cb |-> ra.cb, msgs |-> ra.msgs, lrr |-> ra.S.K.lrr, idx |-> ra.S.idx,
                 li |-> CurLayerOf(ra.S.cfg, ra.S.K), repl |-> ra.repl, proj |-> ProjOf(ra.S.cfg, ra.S.K)]
      /\ UNCHANGED phys
+\* plain iterations are run-length compressed in the history: <<"T", n>>
+TickAppend(h) == IF h # <<>> /\ h[Len(h)][1] = "T" THEN [h EXCEPT ![Len(h)] = <<"T", @[2] + 1>>] ELSE Append(h, <<"T", 1>>)
 Tick == /\ Alive
         /\ LET p == Pre(SA, FALSE) IN
            IF p.due
@@ -198,7 +208,7 @@ Tick == /\ Alive
                      /\ hist' = Append(hist, <<"t", f, p.S.idx>>)
                 /\ natt' = natt + 1 /\ budget' = PostBudget
            ELSE /\ TickWith("none", FALSE, 0)
-                /\ hist' = Append(hist, <<"t">>) /\ UNCHANGED <<natt, budget>>
+                /\ hist' = TickAppend(hist) /\ UNCHANGED <<natt, budget>>
 Next == (\E c \in EnvKeys : Press(c) \/ Release(c)) \/ Tick
 
 View == <<SA, SB, SC, lane, mon, phys, natt, budget>>
@@ -241,14 +251,14 @@ def mon_params(p, idxsem, scap, files=None):
     codes = {q["key"]: cfgdesc.code(q["key"]) for q in p["reqs"]}
     return {"files": list(files or p["start"]), "valid": ["O", "N", "X"], "first": p["first"],
             "req": [{"c": codes[q["key"]], "k": q["k"], "n": q["n"]} for q in p["reqs"]],
-            "idxsem": idxsem, "scap": scap, "sec": 1000, "bound": 2, "settle": p["settle"]}
+            "idxsem": idxsem, "scap": scap, "sec": 1000, "bound": 1, "settle": p["settle"]}
 
 
 def gen_mc(p, wd, tier):
     keys = [cfgdesc.code(k) for k in p["keys"] + [q["key"] for q in p["reqs"]]]
     dO, _ = dump_cfg(p["texts"]["O"], keys, wd, "c15_%s_O" % p["name"])
     dN, _ = dump_cfg(p["texts"]["N"], keys, wd, "c15_%s_N" % p["name"])
-    age = max(max_number(dO), max_number(dN)) + 2
+    age = p.get("age") or (max(max_number(dO), max_number(dN)) + 2)
     if p["settle"] is None:
         p["settle"] = 2 * age + 12
     cO, capsO = gen_constants(dO, caps={"age": age})
@@ -274,7 +284,8 @@ def gen_mc(p, wd, tier):
                               keys="{" + ", ".join(str(cfgdesc.code(k)) for k in p["env"]) + "}",
                               qmax=p["qmax"], maxatt=p["maxatt"], prebudget=p["pre"], postbudget=p["post"],
                               kinds="{" + ", ".join(tla_val(k) for k in p["kinds"]) + "}",
-                              monparams=tla_val(mon_params(p, "requested", 0)))
+                              monparams=tla_val(mon_params(p, "requested", p.get("mc_scap", 0))),
+                              extra_guard=p.get("extra_guard", ""))
     open(os.path.join(wd, mod + ".tla"), "w").write(text)
     open(os.path.join(wd, mod + ".cfg"), "w").write(CFG_TEMPLATE)
     return mod, keys, age
@@ -288,7 +299,9 @@ def case_of(p, cid, script, params, lanes=True):
 def hist_to_steps(h):
     s = []
     for st in h:
-        if st[0] == "t":
+        if st[0] == "T":
+            s.append(["t", int(st[1])])
+        elif st[0] == "t":
             if len(st) >= 3:
                 s.append(["w", int(st[2]), st[1]])
             s.append(["t"])
@@ -396,13 +409,52 @@ def record_validate(res, pairs_by_id, cases, wd, name):
     nlines, errs = validate_lanes(trace, wd)
     res.traces_validated += len(cases)
     res.trace_lines += nlines
+    # vacuity: what the recorded lanes actually exercised
+    st = {"cases": 0, "with_successful_reload": 0, "with_fresh_lane_compared": 0, "with_invalid_file_at_request": 0,
+          "reloads": 0, "lane_B_iterations": 0, "lane_C_iterations": 0, "reload_with_physical_key_held": 0}
+    cur = None
+    for line in open(trace):
+        r = json.loads(line)
+        if r["e"] == "reset":
+            cur = {"repl": False, "c": False, "bad": False}
+            st["cases"] += 1
+        elif r["e"] == "w" and not r["valid"] and not cur["bad"]:
+            cur["bad"] = True
+            st["with_invalid_file_at_request"] += 1
+        elif r["e"] == "t":
+            if r["A"].get("repl"):
+                st["reloads"] += 1
+                if r["phys"] > 0:
+                    st["reload_with_physical_key_held"] += 1
+                if not cur["repl"]:
+                    cur["repl"] = True
+                    st["with_successful_reload"] += 1
+            if r["B"]["on"]:
+                st["lane_B_iterations"] += r["n"]
+            if r["C"]["on"]:
+                st["lane_C_iterations"] += r["n"]
+                if not cur["c"]:
+                    cur["c"] = True
+                    st["with_fresh_lane_compared"] += 1
+    res.extra["lanes"] = st
+    if min(st["with_successful_reload"], st["with_fresh_lane_compared"], st["with_invalid_file_at_request"]) == 0:
+        raise ToolError("vacuous lane runs: %r" % st)
     by_id = {c["id"]: c for c in cases}
+    skipped = 0
     for e in errs:
         c = by_id[e["job"]]
-        flow.classify(res, PID, e["err"], e["err"] + " [" + ("pair " if not str(c.get("pair")).startswith("scenario") else "") + str(c.get("pair")) + "]",
+        if len(res.violations) >= 25:      # enough replay files; the rest is only counted
+            skipped += 1
+            continue
+        label = str(c.get("pair"))
+        if not label.startswith("scenario"):
+            label = pairs_by_id[label].get("label", "pair " + label) if label in pairs_by_id else "pair " + label
+        flow.classify(res, PID, e["err"], e["err"] + " [" + label + "]",
                       {"property": PID, "kind": "c15", "case": {k: v for k, v in c.items() if k != "pair"},
                        "err": e["err"], "monitor": MON, "pair": c.get("pair")},
                       "%s_%d" % (name, len(res.violations)))
+    if skipped:
+        res.notes.append({"rejected_traces_beyond_the_first_25_violations": skipped})
     return errs
 
 
